@@ -10,4 +10,5 @@ mkdir -p bin lean/GoUtils/Generated
 (cd lean && lake build GoUtils driver)
 cp /repo/utils/go.sum harness/go.sum
 (cd harness && go build -tags verif -o ../bin/h ./cmd/h)
+(cd harness && go build -race -tags verif -o ../bin/h_race ./cmd/h) || echo "race build unavailable: C13 will build it on demand"
 echo setup done
